@@ -847,6 +847,8 @@ MUTANTS = [
            replace_expr(f, lambda e: isinstance(e, ast.Call) and u(e) == "range(self.__max_retries + 1)", "range(self.__max_retries + 2)"), also=("C03",)),
     Mutant("C13", "disconnect-removes-streams-with-del", "C13-R3", S, "Daemon._clientDisconnect",
            lambda f, t: replace_stmt(f, lambda s: isinstance(s, ast.Expr) and ".pop(streamId, None)" in u(s), stmts("del self.streaming_responses[streamId]"))),
+    Mutant("C20", "presented-key-encoded-before-its-type-is-known", "C20-R1", GW, "process_pyro_request",
+           lambda f, t: replace_expr(f, lambda e: isinstance(e, ast.BoolOp) and "isinstance(gateway_key, str)" in u(e), "gateway_key.encode('utf-8') != pyro_app.gateway_key")),
     Mutant("C18", "communication-timeout-set-by-the-worker", "C18-R3", ST, "SocketServer_Threadpool.events",
            lambda f, t: (delete_stmt(f, lambda s: isinstance(s, ast.If) and "COMMTIMEOUT" in u(s.test)),
                          find_fn(t, "ClientConnectionJob.__call__").body.insert(0, stmts("if config.COMMTIMEOUT:\n    self.csock.timeout = config.COMMTIMEOUT")[0])), also=("C05",)),
